@@ -2,6 +2,8 @@ package main
 
 import (
 	"fmt"
+	"os"
+	"path/filepath"
 	"sort"
 	"strings"
 	"sync"
@@ -557,6 +559,9 @@ func bitsOf(rs []rune, f func(rune) bool) []int64 {
 func legC16Class(c *Ctx) {
 	c16Setup()
 	c.Rule("random bracket expressions (1-12 members: characters, ranges, complement-shaped ranges, \\d\\s\\w\\D\\S\\W, \\p{..}/\\P{..} over 40 category/script/property names, POSIX names under RE2, negation, nested subtraction to depth 3) x modes {none, IgnoreCase, ECMAScript, RE2, IgnoreCase+ECMAScript, IgnoreCase+RE2} x ASCII bitmap on/off x runes {U+0000-U+024F, every range endpoint +-1 of the expression and of the parsed class, edge runes, sampled BMP/astral/surrogates, U+10FFFF}; under IgnoreCase ranges have ASCII endpoints, single members are ASCII or plain upper/lower pairs of ASCII/Latin-1/Greek/Cyrillic; non-trivial = a class with at least two members, negation or subtraction (distinct by pattern text and mode)")
+	if c.Leg == "c16-class-0" {
+		c16CheckFoldD(c)
+	}
 	nClasses := c.N(50, 1250) // per leg and mode family; four legs run in parallel
 	nSample := c.N(2000, 20000)
 	gates := map[string]bool{}
@@ -756,4 +761,63 @@ func c16OneClass(c *Ctx, m c16Mode, nSample int, gates map[string]bool) {
 	in3 := append(append(append(append([]int64{}, oracle...), m.bits()), synEnc...), domEnc...)
 	c.Add(&Case{Desc: desc + " [denote]", Key: key, Class: cl, Guard: guard,
 		ModelLeg: 1603, ModelIn: in3, ImplOut: inPlain})
+}
+
+// ---------------------------------------------------------------- coq/Model/FoldD.v (finite case domain)
+
+// c16FoldDText renders coq/Model/FoldD.v from the running toolchain's unicode tables.
+func c16FoldDText() string {
+	c16Setup()
+	var sb strings.Builder
+	sb.WriteString("(* GENERATED by the C16 harness (harness/leg_c16.go, c16FoldDText; regenerate with\n")
+	sb.WriteString("   C16_WRITE_FOLDD=1 build/harness -legs c16-class-0 ...) from the unicode tables of the Go toolchain that\n")
+	sb.WriteString("   builds /repo.  Leg c16-class-0 fails when this file differs from what the running toolchain yields.\n")
+	sb.WriteString("   TODO(lead): belongs in coq/Gen (DESIGN: Gen/FoldD.v); it depends on the Go toolchain, not on /repo.\n")
+	sb.WriteString("   pair_dom: letters of ASCII, Latin-1, Greek, Cyrillic that form a plain upper/lower pair\n")
+	sb.WriteString("     (SimpleFold orbit = the two of them, ToLower/ToUpper map both to the lower/upper one) and their partners.\n")
+	sb.WriteString("   fold_tbl: (x, (SimpleFold x, ToLower x)) for U+0000-U+024F, pair_dom and the ECMAScript \\s characters,\n")
+	sb.WriteString("     closed under SimpleFold and ToLower. *)\n")
+	sb.WriteString("From Verif Require Import Base.Prelude.\n\n")
+	wr := func(name string, xs []rune) {
+		sb.WriteString("Definition " + name + " : list Z :=\n  [")
+		for i, x := range xs {
+			if i > 0 {
+				sb.WriteString("; ")
+				if i%16 == 0 {
+					sb.WriteString("\n   ")
+				}
+			}
+			fmt.Fprintf(&sb, "%d", x)
+		}
+		sb.WriteString("].\n\n")
+	}
+	wr("pair_dom", c16D)
+	sb.WriteString("Definition fold_tbl : list (Z * (Z * Z)) :=\n  [")
+	for i, x := range c16CaseTab {
+		if i > 0 {
+			sb.WriteString("; ")
+			if i%6 == 0 {
+				sb.WriteString("\n   ")
+			}
+		}
+		fmt.Fprintf(&sb, "(%d, (%d, %d))", x, unicode.SimpleFold(x), unicode.ToLower(x))
+	}
+	sb.WriteString("].\n")
+	return sb.String()
+}
+
+func c16CheckFoldD(c *Ctx) {
+	path := filepath.Join(c.OutDir, "coq", "Model", "FoldD.v")
+	want := c16FoldDText()
+	if os.Getenv("C16_WRITE_FOLDD") != "" {
+		os.WriteFile(path, []byte(want), 0o644)
+	}
+	got, err := os.ReadFile(path)
+	cs := &Case{Desc: "coq/Model/FoldD.v equals the table generated from the running Go toolchain (SimpleFold/ToLower on the finite case domain)", Class: "table"}
+	if err != nil {
+		cs.Direct = "cannot read " + path + ": " + err.Error()
+	} else if string(got) != want {
+		cs.Direct = "coq/Model/FoldD.v is stale (the closed IgnoreCase theorems are about other tables than the running unicode package)"
+	}
+	c.Add(cs)
 }
